@@ -42,7 +42,7 @@ def vname(q):
 
 
 def mk_variant(q, fields=None):
-    return ("v", vname(q), list(fields or []))
+    return ("v", vname(q), tuple(fields or ()))
 
 
 def ok(v):
@@ -128,7 +128,7 @@ class Interp:
                 return False
             if v[1] != vname(p.get("q")):
                 return False
-            fs = v[2]
+            fs = list(v[2])
             if len(fs) < len(p["ps"]):
                 fs = fs + [OPAQUE] * (len(p["ps"]) - len(fs))
             return all(self.match(x, y, env) for x, y in zip(p["ps"], fs))
@@ -450,7 +450,7 @@ class Interp:
             return is_variant(v, "::Err")
         if name == "map":
             if is_variant(v, "::Some") or is_variant(v, "::Ok"):
-                return ("v", v[1], [self.call_value(args[1], [v[2][0]])])
+                return ("v", v[1], (self.call_value(args[1], [v[2][0]]),))
             return v
         if name == "ok":
             return some(v[2][0]) if is_variant(v, "::Ok") else NONE
